@@ -8,7 +8,7 @@ git diff --quiet -- src && git apply seed/patch.diff
 cp seed/demo_$d.rs tests/demo_$d.rs
 echo "[with change] suite:"; cargo test --workspace --no-fail-fast --offline 2>&1 | grep -E "^test result|Running tests/demo" | tr '\n' ' '; echo
 echo "[with change] demo:"; cargo test --offline --test demo_$d 2>&1 | grep -E "^test result" 
-git stash push -q -- src
+git diff -- src > /tmp/confirm_$P.diff && git apply -R /tmp/confirm_$P.diff
 echo "[without change] demo:"; cargo test --offline --test demo_$d 2>&1 | grep -E "^test result"
-git stash pop -q
+git apply /tmp/confirm_$P.diff
 git checkout -q -- samples 2>/dev/null
